@@ -74,7 +74,7 @@ def audit(ctx, R, W, outs, op, grids, expect_delta, result_terms):
         else: R.d['discharged'] += 1
         if r: report('no-read-of-mutable-global', 'load from a mutable global: %s' % r[:4])
         else: R.d['discharged'] += 1
-        if bad_atom: report('atomics-only-on-use-counts', 'atomic RMW outside a shared_ptr use count: %s' % bad_atom[:3])
+        if bad_atom: R.d['inconclusive'].append('%s: atomic RMW outside a shared_ptr use count (%s): not a data race, but determinism is not established by this argument' % (key, bad_atom[:3]))
         else: R.d['discharged'] += 1
         # results are functions of the operands' bytes only (not of how many owners the grid has)
         deps = set()
